@@ -1,9 +1,174 @@
 import Driver.Util
-open Lean
+import NixModel.Pure.Version
+open Lean Nix.Version Nix.Gen.Format
 
+/-!
+Line protocol of the C11 model driver (one JSON array per line, one JSON value back):
+
+* `["is_uuid", s|null]`, `["can_write", ver|null]`, `["can_read", ver|null]`, `["map_mode", m]`,
+  `["tuple_ge", a, b]`, `["check", mode, header]` — the pure functions;
+* `["hist", disk|null, [event…]]` — a history on one path:
+  events `["open", mode, freshId]`, `["get", key]`, `["keys", prefix]`, `["header"]`,
+  `["put", key, val]`, `["del", key]`, `["api", name]` (a mutator whose effect is not modelled:
+  answered only in a read-only session, where the effect is irrelevant), `["close"]`, `["remove"]`;
+  answer `{"ok": {"outs": […], "disk": disk|null}}`.
+
+header = `{"format": s|null, "version": [int…]|null, "id": s|null}`;
+disk = `{"header": …, "data": b, "meta": b, "created": b, "updated": b, "content": [[key, val]…]}`.
+-/
 namespace Driver.C11
 
-/-- stub: replaced when the model of C11 is built -/
-def main : IO Unit := pureLoop fun _ => bad "C11: model driver not built yet"
+def s2j (s : Str) : Json := Json.str (String.ofList s)
+def os2j : Option Str → Json | none => Json.null | some s => s2j s
+def key2j (k : Key) : Json := Json.arr (k.map s2j).toArray
+
+def j2str? : Json → Option Str | .str s => some s.toList | _ => none
+def j2ostr? : Json → Option (Option Str)
+  | .null => some none
+  | .str s => some (some s.toList)
+  | _ => none
+def j2ints? (j : Json) : Option (List Int) :=
+  match j with
+  | .arr a => a.toList.mapM jInt?
+  | _ => none
+def j2oints? (j : Json) : Option (Option (List Int)) :=
+  match j with
+  | .null => some none
+  | _ => (j2ints? j).map some
+def j2key? (j : Json) : Option Key :=
+  match j with
+  | .arr a => a.toList.mapM j2str?
+  | _ => none
+def j2bool? : Json → Option Bool | .bool b => some b | _ => none
+
+def field (j : Json) (k : String) : Json := (j.getObjVal? k).toOption.getD Json.null
+
+def j2header? (j : Json) : Option Header := do
+  let f ← j2ostr? (field j "format")
+  let v ← j2oints? (field j "version")
+  let i ← j2ostr? (field j "id")
+  pure { fmt := f, version := v, id := i }
+
+def j2content? (j : Json) : Option Content :=
+  match j with
+  | .arr a => a.toList.mapM fun kv =>
+      match kv with
+      | .arr #[k, v] => do pure ((← j2key? k), (← j2str? v))
+      | _ => none
+  | _ => none
+
+def j2disk? (j : Json) : Option (Option Disk) :=
+  match j with
+  | .null => some none
+  | _ => do
+    let h ← j2header? (field j "header")
+    let a ← j2bool? (field j "data")
+    let b ← j2bool? (field j "meta")
+    let c ← j2bool? (field j "created")
+    let d ← j2bool? (field j "updated")
+    let ct ← j2content? (field j "content")
+    pure (some { header := h, hasData := a, hasMeta := b, hasCreated := c, hasUpdated := d, content := ct })
+
+def header2j (h : Header) : Json :=
+  Json.mkObj [("format", os2j h.fmt),
+              ("version", match h.version with
+                          | none => Json.null
+                          | some v => Json.arr (v.map (fun (i : Int) => toJson i)).toArray),
+              ("id", os2j h.id)]
+
+def disk2j : Option Disk → Json
+  | none => Json.null
+  | some d => Json.mkObj [("header", header2j d.header), ("data", d.hasData), ("meta", d.hasMeta),
+      ("created", d.hasCreated), ("updated", d.hasUpdated),
+      ("content", Json.arr (d.content.map fun kv => Json.arr #[key2j kv.1, s2j kv.2]).toArray)]
+
+def refusal2j : Refusal → Json
+  | .err e => Json.str e.toString
+  | .h5ReadOnly => Json.str "H5ReadOnly"
+
+def out2j : Out → Json
+  | .val v => Json.mkObj [("val", os2j v)]
+  | .keys ks => Json.mkObj [("keys", Json.arr (ks.map key2j).toArray)]
+  | .header h => Json.mkObj [("header", header2j h)]
+  | .done => Json.mkObj [("done", true)]
+  | .refused r => Json.mkObj [("refused", refusal2j r)]
+
+def evout2j : EvOut → Json
+  | .opened s => Json.mkObj [("opened", Json.mkObj [("mode", s2j s.mode), ("writable", s.writable)])]
+  | .refused r => Json.mkObj [("refused", refusal2j r)]
+  | .out o => out2j o
+  | .closed => Json.mkObj [("closed", true)]
+  | .ignored => Json.mkObj [("ignored", true)]
+
+/-- an event, or a reason why the line cannot be answered by the model -/
+def j2ev (w : World) (j : Json) : Except String Ev :=
+  match jArr j |>.toList with
+  | [Json.str "open", Json.str m, Json.str fid] => .ok (.open m.toList fid.toList)
+  | [Json.str "get", k] => match j2key? k with | some k => .ok (.op (.read (.get k))) | none => .error "key"
+  | [Json.str "keys", k] => match j2key? k with | some k => .ok (.op (.read (.keys k))) | none => .error "key"
+  | [Json.str "header"] => .ok (.op (.read .header))
+  | [Json.str "put", k, Json.str v] =>
+    match j2key? k with | some k => .ok (.op (.mutate (fun c => .ok (putKey k v.toList c)))) | none => .error "key"
+  | [Json.str "del", k] => match j2key? k with | some k => .ok (.op (.mutate (delKey k))) | none => .error "key"
+  | [Json.str "api", Json.str _] =>
+    -- effect not modelled: only answerable where `step` ignores it (theorem `C11_readonly_frame`)
+    match w.sess with
+    | some s => if s.acc = .rdonly then .ok (.op (.mutate (fun c => .ok c)))
+                else .error "api mutator in a writable session: effect not modelled"
+    | none => .ok (.op (.mutate (fun c => .ok c)))
+  | [Json.str "close"] => .ok .close
+  | [Json.str "remove"] => .ok .remove
+  | _ => .error "unknown event"
+
+def runHist (w : World) : List Json → Except String (World × List Json)
+  | [] => .ok (w, [])
+  | j :: js =>
+    match j2ev w j with
+    | .error e => .error e
+    | .ok ev =>
+      let (w1, o) := evStep w ev
+      match runHist w1 js with
+      | .error e => .error e
+      | .ok (w2, os) => .ok (w2, evout2j o :: os)
+
+def exb (r : Except Nix.Err Bool) : Json :=
+  match r with | .ok b => ok (Json.bool b) | .error e => err e
+
+def handle (j : Json) : Json :=
+  match jArr j |>.toList with
+  | [Json.str "is_uuid", x] =>
+    match j2ostr? x with | some s => ok (Json.bool (isUuid s)) | none => bad "C11: is_uuid argument"
+  | [Json.str "can_write", v] =>
+    match j2oints? v with
+    | some v => exb (canWrite { fmt := none, version := v, id := none })
+    | none => bad "C11: version"
+  | [Json.str "can_read", v] =>
+    match j2oints? v with
+    | some v => exb (canRead { fmt := none, version := v, id := none })
+    | none => bad "C11: version"
+  | [Json.str "map_mode", Json.str m] =>
+    match mapFileMode m.toList with
+    | .ok .rdonly => ok (Json.str "ACC_RDONLY")
+    | .ok .rdwr => ok (Json.str "ACC_RDWR")
+    | .ok .trunc => ok (Json.str "ACC_TRUNC")
+    | .error e => err e
+  | [Json.str "tuple_ge", a, b] =>
+    match j2ints? a, j2ints? b with
+    | some a, some b => ok (Json.bool (cmpTuple .ge a b))
+    | _, _ => bad "C11: tuple"
+  | [Json.str "check", Json.str m, h] =>
+    match j2header? h with
+    | some h => (match checkHeader m.toList h with | .ok () => ok Json.null | .error e => err e)
+    | none => bad "C11: header"
+  | [Json.str "hist", d, Json.arr evs] =>
+    match j2disk? d with
+    | none => bad "C11: disk"
+    | some d0 =>
+      match runHist { disk := d0, sess := none } evs.toList with
+      | .error e => bad ("C11: " ++ e)
+      | .ok (w, outs) => ok (Json.mkObj [("outs", Json.arr outs.toArray), ("disk", disk2j w.disk)])
+  | _ => bad "C11: unknown op"
+
+def main : IO Unit := pureLoop handle
 
 end Driver.C11
